@@ -591,7 +591,9 @@ fn conc_props(tier: &str, seed: u64, out: &str) {
         ("loop+par", vec!["connect 0 0 5".into(), "connect 0 1 7".into(), "connect 0 1 9".into()]),
     ];
     let muts = ["c.0.1.1", "c.1.0.2", "t.0.1.3", "t.1.0.4", "d.0.1", "d.1.0", "x.0", "x.1"];
-    let reads = ["q.0.1", "g.0", "o.1", "i.0", "i.1"];
+    let reads_di = ["q.0.1", "g.0", "o.1", "i.0", "i.1", "n.1", "r.1", "l.0", "f.1.0", "F.0.1"];
+    let reads_un = ["q.0.1", "g.0", "o.1", "i.0", "i.1", "F.1.0"];
+    let build = |reads: &[&str]| -> Vec<(String, Vec<String>, String)> {
     let mut scenarios: Vec<(String, Vec<String>, String)> = vec![];
     for (iname, init) in inits.iter().take(if quick { 3 } else { 4 }) {
         for a in 0..muts.len() {
@@ -614,11 +616,16 @@ fn conc_props(tier: &str, seed: u64, out: &str) {
             }
         }
     }
+    scenarios
+    };
     let cap = if quick { 3000 } else { 6000 };
     let mut total = 0usize;
     let mut per_fl: BTreeMap<String, usize> = BTreeMap::new();
+    let mut nscen = 0usize;
     for fl in ["sdi", "sun"] {
         exec::new_section();
+        let scenarios = build(if fl == "sdi" { &reads_di } else { &reads_un });
+        nscen = nscen.max(scenarios.len());
         for (name, init, spec) in &scenarios {
             if exec::stopped() {
                 break;
@@ -659,7 +666,7 @@ fn conc_props(tier: &str, seed: u64, out: &str) {
     for (k, v) in per_fl {
         extra.insert(format!("schedules.{k}"), format!("{v}"));
     }
-    extra.insert("scenarios".into(), format!("{} per flavour (every pair of the 8 two-node mutators, every mutator against 5 readers, x initial states{})", scenarios.len(), if quick { "" } else { "; plus 3-thread and 2-calls-per-thread scenarios" }));
+    extra.insert("scenarios".into(), format!("up to {} per flavour (every pair of the 8 two-node mutators, every mutator against every reader (10 directed / 6 undirected), x initial states{})", nscen, if quick { "" } else { "; plus 3-thread and 2-calls-per-thread scenarios" }));
     ctx.counters.insert("cases".into(), total as u64);
     write_outputs(out, &ctxs, extra);
 }
